@@ -249,7 +249,7 @@ def split_cases(text):
 
 def canon_events(evs):
     """replies (and panics) in order, aof records in order — their relative order is not observable in implrun"""
-    rep = [e for e in evs if not e.startswith("ev aof")]
+    rep = [e for e in evs if not e.startswith("ev aof") and not e.startswith("ev note")]   # notes: implementation-side hints for the monitors
     rep = [(" ".join(e.split()[:3]) if e.startswith("ev panic") else e) for e in rep]
     aof = [e for e in evs if e.startswith("ev aof")]
     return rep, aof
